@@ -55,3 +55,12 @@ Theorem C06_pipeline_never_crashes_checked_hypotheses :
                               render nw final = Ok out.
 Proof. exact pipeline_never_crashes_checked. Qed.
 Print Assumptions C06_pipeline_never_crashes_checked_hypotheses.
+
+(** the one unwrap of the pipeline that sits on the answer of the external flow solver: the circulation problem built for
+    a type is feasible for every network loaded from a valid instance and every slot allotment within the track counts,
+    so a correct solver returns Some(flow). (Proving this found the defect repaired by "fix: flow arcs carry as many
+    vehicles as the longest formation of the type's trips": FlowFacts3.tight_arc_bound_prefix_refutes.) *)
+From RS Require Import Flow CircStmts FlowFacts3.
+Theorem C06_circulation_feasible : stmt_circulation_feasible_loaded.
+Proof. exact circulation_feasible_loaded. Qed.
+Print Assumptions C06_circulation_feasible.
